@@ -170,3 +170,10 @@ add("C05", "model_checking",
     "the real parse + intermediate.translate run on it and ancestors, descendants, concrete descendants, is_subclass_of, stacked properties/invariants (each once, ancestors first, own last), the in-lined constructor "
     "(each property assigned exactly once), interfaces, the topological order and the propagation of with_model_type are compared with an independent reference.",
     "Finite family: the solver acts as an exhaustive enumerator and the front end runs concretely (stated honestly in DESIGN.md). Declaration order = index order; no methods.")
+
+add("C06", "model_checking",
+    "solver-enumerated family (CrossHair/z3 selector) of single-rule mutations of a valid meta-model, each run through the real front end",
+    "One valid base model (abstract parent with model type, child with constructor, enumeration, constant set, pattern function, documentation references) and one mutation per structural rule "
+    "named by the property (cycle, unknown base, duplicate / reserved names, re-declared member, constructor argument missing / extra / reordered / retyped / without None default, nested optional, list of "
+    "optionals, duplicate invariant description, dangling references, empty / un-anchored pattern, ...): the base must be accepted, every mutation rejected with a report and without an exception.",
+    "Finite family: the solver only enumerates the selector and the front end runs concretely (stated honestly). One base model; no combinations of mutations.")
